@@ -60,11 +60,37 @@ fn env() -> &'static Env {
     })
 }
 
+/// Scripts that always run first: every order of {done signal, try_run, task end} after a
+/// request met a running report, requests before/after the report, two runs signalling in
+/// both orders, skipped runs.
+const TEMPLATES: &[&str] = &[
+    "N i w s0 t e0",
+    "N i w s0 e0 t",
+    "N i i w s0 t e0 w s0 t e0",
+    "N w i s0 t e0 w s0 e0 t",
+    "N w i w s0 s0 t t e0 e0",
+    "N w i w s1 s0 t t e1 e0",
+    "N w i w s0 t s0 t e1 e0 i",
+    "N i w i s0 t w i s0 s0 t t t",
+    "N r w s0 t e0 i w s0 t",
+    "N r w i s0 e0 t w",
+    "E i w s0 t e0",
+    "E i i w r s0 t i",
+    "N t s0 e0 w w t",
+];
+
 fn generate(rng: &mut Rng, i: u64, _n: u64) -> String {
+    if (i as usize) < TEMPLATES.len() {
+        return TEMPLATES[i as usize].to_string();
+    }
     let mut out = vec![if rng.chance(1, 8) { "E" } else { "N" }.to_string()];
-    let len = 3 + rng.below(4 + (i % 12));
-    // phases biased towards the interesting region: requests while a run is in
-    // flight, then every order of {send, try, end}
+    let len = 3 + rng.below(4 + (i % 14));
+    // most scripts start with a request that meets the initial run
+    if rng.chance(3, 4) {
+        out.push("i".to_string());
+    }
+    // biased towards the interesting region: requests while a run is in flight, then every
+    // order of {send, try, end}
     for _ in 0..len {
         let c = match rng.below(20) {
             0..=4 => "i".to_string(),
